@@ -359,6 +359,9 @@ func TestVerifC07(t *testing.T) {
 	// a short-lived factory: real expiry (lifetime 1 s, wait 3 s)
 	fs, _ := NewWebSessionFactory(time.Second)
 	_, _, shortTok := fs.Generate("bob", true)
+	if st, _, _, _ := fs.Check(shortTok); st != http.StatusOK { // used once while valid (an implementation caching verified tokens must still expire them)
+		R.Violate("c07:rejected-issued:short-lived", "a fresh token of the 1 s factory was rejected", "expiry", nil)
+	}
 	// nonce uniqueness: sequential and concurrent issuance
 	nseq := vr.Pick(100000, 2000000)
 	seen := make(map[[12]byte]struct{}, nseq+400000)
@@ -416,9 +419,36 @@ func TestVerifC07(t *testing.T) {
 		R.Violate("c07:concurrently-issued-token-rejected", fmt.Sprintf("%d tokens issued concurrently are not accepted as issued", bad), "nonces", nil)
 	}
 	// expiry in real time
+	// (a) a token first used LATE in its life must still expire at issue time + lifetime (4 s factory:
+	//     issued at the start of a second, used at +3 s, presented again at +5.5 s; margins >= 1 s)
+	{
+		f4, _ := NewWebSessionFactory(4 * time.Second)
+		for time.Now().Nanosecond() > 100e6 {
+			time.Sleep(10 * time.Millisecond)
+		}
+		t0 := time.Now()
+		_, _, tok4 := f4.Generate("bob", true)
+		time.Sleep(time.Until(t0.Add(3 * time.Second)))
+		st1, _, _, _ := f4.Check(tok4)
+		late1 := time.Since(t0)
+		time.Sleep(time.Until(t0.Add(5500 * time.Millisecond)))
+		st2, _, _, _ := f4.Check(tok4)
+		R.Case("late-first-use", true)
+		switch {
+		case late1 > 3900*time.Millisecond || time.Since(t0) > 60*time.Second:
+			R.Inconcl("machine stalled during the late-first-use expiry case")
+		case st1 != http.StatusOK:
+			R.Violate("c07:rejected-issued:late-first-use", fmt.Sprintf("a token of a 4 s factory was rejected %.1f s after issuance", late1.Seconds()), "expiry", nil)
+		case st2 == http.StatusOK:
+			R.Violate("c07:expired-token-accepted:after-late-first-use", "a token of a 4 s factory, first used 3 s after issuance, was still accepted 5.5 s after issuance", "expiry", nil)
+		}
+	}
 	time.Sleep(3 * time.Second)
 	if st, _, _, _ := fs.Check(shortTok); st == http.StatusOK {
-		R.Violate("c07:expired-token-accepted", "a token of a factory with 1 s lifetime was accepted 3 s after issuance", "expiry", nil)
+		R.Violate("c07:expired-token-accepted", "a token of a factory with 1 s lifetime (checked once while valid) was accepted 3 s after issuance", "expiry", nil)
+	}
+	if st, _, _, _ := fs.Check(shortTok); st == http.StatusOK {
+		R.Violate("c07:expired-token-accepted", "second presentation after expiry accepted", "expiry", nil)
 	}
 	R.Case("real-expiry", true)
 	R.Sample(map[string]any{"issued": toks[0].Text, "user": toks[0].User, "admin": toks[0].Admin, "classes": "bitflip/char-substitution/truncation/extension/splice/other-instance/chosen-plaintext"})
